@@ -165,6 +165,12 @@ def c092(ctx):
                   and {".start"} <= K.src_names(g, x["a"]) | K.src_names(g, x["b"]) and {".limit"} <= K.src_names(g, x["a"]) | K.src_names(g, x["b"])]
             ctx.check(R, g, "start<limit", bool(cg), "sanity_check returns Ok only on the start<limit edge",
                       "sanity_check no longer compares start and limit", pt=p)
+            # exactly: Ok implies start < limit (an empty or inverted extent would size a zero / wrapped read)
+            from blue import bounds as B
+            bf = B.BF(ctx.prog, g)
+            why = bf.prove(("pl", 1, ("start",)), True, ("pl", 1, ("limit",)), p)
+            ctx.check(R, g, "start<limit-exact", bool(why), "Ok(()) is returned only when start < limit strictly (%s)" % why,
+                      "sanity_check can return Ok with start >= limit: the extent limit - start sizes the block read", pt=p)
 
 
 ALLOC = r"alloc::vec::Vec::(resize|with_capacity|reserve|reserve_exact)$|alloc::vec::from_elem$|alloc::vec::Vec::resize_with$"
